@@ -290,6 +290,11 @@ def o203(ctx):
     if not ok_sort:
         ctx.finding(q, lp, "the candidate matches must be sorted by increasing distance before the greedy assignment", lp, m)
     names = [e.id for e in lp.target.elts] if isinstance(lp.target, ast.Tuple) else []
+    if len(names) != 3:
+        # the loop reads the candidates in another way (indexing, a named tuple): the roles of the three entries are not identified here
+        if ctx.cur.findings:
+            return
+        raise Unsupported("the greedy loop does not unpack its candidates as (distance, source index, target index): layout not decided", lp)
     mc, fc = ctx.prog.func(MT + "measure_thickness_cpu")
     # the producer: the list handed to process_matches_cpu2cpu as first argument, and the tuples appended to it
     handoff = [n for n in ast.walk(fc) if isinstance(n, ast.Call) and (ctx.prog.resolve(mc, n.func) or "").endswith("process_matches_cpu2cpu")]
